@@ -401,6 +401,11 @@ class World(object):
             except Exception as e:     # noqa
                 r.exc = (type(e).__name__, str(e))
             return [self._end(r, snap)]
+        if k == "cbind":
+            # macro: connect and bind at once (an unbound connection can do nothing else of interest)
+            out = self._step(("conn", ev[1]), snap)
+            out += self._step(("bind",) + tuple(ev[1:]), snap)
+            return out
         if k == "drop":
             c = ev[1]
             r = self._begin(ev, "drop", snap)
